@@ -234,3 +234,19 @@ pub fn bytes_map_insert<'a>(m: &mut HashMap<&'a [u8], &'a [u8]>, k: &'a [u8], v:
 pub fn bytes_map_get<'a, 'b>(m: &'b HashMap<&'a [u8], &'a [u8]>, k: &[u8]) -> (r: Option<&'b &'a [u8]>)
     ensures r is Some <==> bmap(m@).contains_key(k@), r is Some ==> (**(r->Some_0))@ == bmap(m@)[k@]
 { unimplemented!() }
+
+/// `for (key, values) in map` (by value) materialised: every entry exactly once, in the HashMap's (arbitrary) iteration order
+#[verifier::external_body]
+pub fn hashmap_into_entries(m: HashMap<String, Vec<String>>) -> (r: Vec<(String, Vec<String>)>)
+    ensures
+        r@.len() == m@.len(),
+        forall|i: int, j: int| 0 <= i < j < r@.len() ==> (#[trigger] r@[i]).0 != (#[trigger] r@[j]).0,
+        forall|i: int| 0 <= i < r@.len() ==> m@.contains_key((#[trigger] r@[i]).0) && m@[r@[i].0] == r@[i].1,
+        forall|k: String| m@.contains_key(k) ==> exists|i: int| 0 <= i < r@.len() && (#[trigger] r@[i]).0 == k,
+{ unimplemented!() }
+/// `map.entry(key).or_default().extend(values)` for HashMap<String, Vec<String>>
+#[verifier::external_body]
+pub fn hashmap_entry_or_default_extend(m: &mut HashMap<String, Vec<String>>, key: String, values: Vec<String>)
+    ensures final(m)@ == old(m)@.insert(key, final(m)@[key]),
+            final(m)@[key]@ == (if old(m)@.contains_key(key) { old(m)@[key]@ + values@ } else { values@ }),
+{ unimplemented!() }
